@@ -519,16 +519,19 @@ func (s *Store[K, V]) DeleteWithSecondary(key K) error {
 	_, index := s.index(key)
 	shard := s.shards[index]
 	shard.mu.Lock()
+	// The key may live in the secondary cache only (demoted), so the secondary copy
+	// is removed whether or not the key is in memory; it is removed first, so a
+	// failure leaves both tiers as they were.
+	if s.secondaryCache != nil {
+		err := s.secondaryCache.Delete(key)
+		if err != nil {
+			shard.mu.Unlock()
+			return err
+		}
+	}
 	entry, ok := shard.get(key)
 	if ok {
 		shard.delete(entry)
-		if s.secondaryCache != nil {
-			err := s.secondaryCache.Delete(key)
-			if err != nil {
-				shard.mu.Unlock()
-				return err
-			}
-		}
 	}
 	shard.mu.Unlock()
 	if ok {
